@@ -10,22 +10,22 @@ PROPERTY = "C02"
 def generate(seed, tier="quick", prop=PROPERTY, logprobs=0.0, all_logprobs=0.1):
     rnd = tape.sub(seed, prop, "gen")
     max_n = 100 if tier == "quick" else 300
-    cfg = common.base_config(seed, prop, rnd, n_libs=1, n_data=1)
+    cfg = common.base_config(seed, prop, rnd, n_libs=1, n_data=2)
     cfg["libraries"][0]["n"] = rnd.choice([1, 2, 3, 4, 5, 8, 13, 21, 34, 55, rnd.randint(1, max_n), rnd.randint(1, max_n)])
     lib = cfg["libraries"][0]
     lib["duplicates"] = [d for d in lib["duplicates"] if d[0] < lib["n"] and d[1] < lib["n"]]
     if lib["n"] >= 3 and rnd.random() < 0.3:  # exact ties
         lib["duplicates"].append([0, lib["n"] - 1])
-    d = cfg["datasets"][0]
-    if d.get("orbit_from"):
-        d["orbit_from"] = [0, d["orbit_from"][1] % lib["n"]]
+    for d in cfg["datasets"]:
+        if d.get("orbit_from"):
+            d["orbit_from"] = [0, d["orbit_from"][1] % lib["n"]]
     nan_lib = sampling.add_nan_library(rnd, cfg, 0, p=0.12)
     sampling.add_neg_inf_profile(rnd, cfg, 0, p=0.15)
     N = lib["n"]
     ops = []
     for oid in range(rnd.randint(2, 4)):
         p, pname = sampling.gen_path(rnd)
-        op = {"id": oid, "op": "rejection", "data": 0, "lib": 0, "joker": "main", "role": "target"}
+        op = {"id": oid, "op": "rejection", "data": rnd.randrange(2), "lib": 0, "joker": "main", "role": "target"}
         if nan_lib is not None and rnd.random() < 0.3:
             op["lib"] = nan_lib
         op.update(p)
